@@ -1989,7 +1989,17 @@ def c06ops(rec):
     except Exception as e:  # noqa
         d = None
         out.append(_verdict("C06", "declined_error", "find_domain:" + type(e).__name__, str(e)[:80], sig=sig))
-    # array implementation
+    # array implementation: where the exact algebra has no value (matmul beyond matrices) the
+    # shape it returns must still be the static shape
+    if not rec["defined"] and c["op"]["n"] == "matmul":
+        try:
+            r = np.asarray(op(*args))
+            if list(r.shape) != rec["dom"]["sh"]:
+                out.append(_verdict("C06", "mismatch", "array_shape_vs_static", {"got": list(r.shape), "want": rec["dom"]["sh"]}, sig=sig))
+            else:
+                out.append(_verdict("C06", "agree", sig=sig))
+        except Exception as e:  # noqa
+            out.append(_verdict("C06", "declined_error", "array:" + type(e).__name__, str(e)[:80], sig=sig))
     if rec["defined"]:
         try:
             if c["kind"] == "getitem":
